@@ -378,12 +378,13 @@ def c11(prop, tier):
     if p.stdout.strip():
         extra.append("UNANALYSED-SITE utils.Parallelize is now called from the compile path: %s" % p.stdout.strip().replace("\n", " "))
     jobs = [Job("scs-wire-queries", "./frontend/cs/scs", ["prelude_sym.go", "c11_wires.go"], {"PKGNAME": "scs"}),
-            Job("emulated-deferred-state", "./std/math/emulated", ["prelude_sym.go", "c11_emulated.go"], {"PKGNAME": "emulated"})]
+            Job("emulated-deferred-state", "./std/math/emulated", ["prelude_sym.go", "c11_emulated.go"], {"PKGNAME": "emulated"}),
+            Job("rangecheck-basewidth-history", "./std/rangecheck", ["prelude_sym.go", "c11_basewidth.go"], {"PKGNAME": "rangecheck"})]
     return run_property(prop, tier, jobs,
-                        title="C11: every `range` over a map (and go/select) in the compile-path packages is enumerated from SSA; each map-range site is executed under EVERY iteration order with symbolic wire ids and must emit the same constraints.",
+                        title="C11: every `range` over a map, go/select and every WRITE TO A PACKAGE-LEVEL VARIABLE outside package initialisation (stores, map updates, sync.Map writes: state that survives a compilation) in the compile-path packages is enumerated from SSA and compared with a dispositions table (none of the last kind exists on the unchanged tree); the range checker's choice of limb width for a collection is its own optimum whatever collection was asked before (6 x 6 ordered pairs of distributions, both frontend types); each map-range site is executed under EVERY iteration order with symbolic wire ids and must emit the same constraints.",
                         design_ref="DESIGN.md §3 C11",
                         assumptions=["Go is deterministic except for map iteration order, goroutine scheduling, time and randomness", "map keys are ints / structs of ints (no address-dependent hashing)"],
-                        outside=["std gadgets beyond the listed packages", "cross-process effects", "Commit() ordering (sorted k-way merge; to do)"],
+                        outside=["std gadgets beyond the listed packages", "cross-process effects", "Commit() ordering (sorted k-way merge; to do)", "state kept in objects reachable from package-level variables through pointers (the scan sees direct stores, map updates and sync.Map writes on the variable itself)"],
                         extra_inconclusive=extra, extra_coverage=dict(nondeterminism_sites=[dict(s_, disposition=C11_SITES.get((s_["Kind"], s_["Func"]), "UNANALYSED")) for s_ in sites], packages_scanned=COMPILE_PATH))
 
 
